@@ -55,6 +55,7 @@ SliceTab ==
     "ratesS" :> S(MIX, K1, {"neg"}, {"+", "*"}, TRUE, {}, {}, {2}, 1, "Out", 1, FALSE) @@
     "divS"   :> S(AR2, <<>>, {"neg"}, {"/"}, FALSE, {}, {}, {}, 2, "Out", 2, FALSE) @@
     "reoptS" :> S(SH, <<>>, {}, {"+"}, FALSE, {3}, {}, {}, 1, "Out", 2, FALSE) @@
+    "twoS"   :> S(MIX, <<>>, {"neg"}, {"+", "*"}, FALSE, {}, {}, {2}, 1, "Out2", 2, FALSE) @@
     "zeroS"  :> S(AR2, <<>>, {"neg"}, {"+", "*"}, FALSE, {}, {}, {0}, 1, "Out0", 2, FALSE) @@
     "localS" :> S(MIX, <<>>, {"neg"}, {"+"}, FALSE, {}, {}, {2}, 1, "LocalOut", 1, FALSE) @@
     "badS"   :> S(MIX, K1, {"neg"}, {"+", "*"}, FALSE, {}, {"Pan2", "LPF"}, {0, 2}, 1, "Out", 2, TRUE) @@
@@ -76,10 +77,10 @@ SliceTab ==
                   {"Pan2", "LPF", "SinOsc", "LFNoise0", "K2A", "DC"}, {0, 1, 0 - 1, 2, 3}, 12, "Out", 2, FALSE)
 Groups ==
     "quick" :> {"coverS", "sumS", "sum3S", "negS", "shortS", "maddS", "mulS", "opsS", "moS", "deadS", "ratesS",
-                "divS", "localS", "zeroS", "reoptS"} @@
+                "divS", "localS", "zeroS", "reoptS", "twoS"} @@
     "l2S" :> {"coverS", "shortS", "reoptS"} @@
     "thorough" :> {"coverS", "sumS", "sum3S", "negS", "shortS", "maddS", "mulS", "opsS", "moS", "deadS", "ratesS",
-                   "divS", "localS", "zeroS", "reoptS", "ops1", "dead2", "local2", "div2", "ring2"} @@
+                   "divS", "localS", "zeroS", "reoptS", "twoS", "ops1", "dead2", "local2", "div2", "ring2"} @@
     \* too big to enumerate within the budget: sampled with random walks (RSpec)
     "sampled" :> {"sum3", "ring3", "neg3", "madd2", "rates2", "mo2", "ring2", "div2", "dead2", "local2", "ops1"}
 SliceNames == IF IOEnv.VERIF_SLICE \in DOMAIN Groups THEN Groups[IOEnv.VERIF_SLICE] ELSE {IOEnv.VERIF_SLICE}
@@ -112,7 +113,7 @@ AddGen == ~done /\ NOps < Slice.n /\ \E cls \in Slice.gens, rate \in {1, 2}, a \
                   nout == IF c.nout < 0 THEN 2 ELSE c.nout
                   args == [j \in 1..c.lo |-> IF j = 1 THEN a ELSE C(1)] IN
               rate \in c.rates /\ Try(Gen(cls, rate, nout, args))
-Finish == /\ ~done
+Finish == /\ ~done /\ Slice.sink # "Out2"
           /\ \E a \in Signals :
                LET fixed == IF Slice.sink = "LocalOut" THEN <<>> ELSE <<C(0)>>
                    zero == IF Slice.sink = "Out0" THEN <<C(0)>> ELSE <<>>       \* a literal 0 channel (becomes silence)
@@ -121,7 +122,13 @@ Finish == /\ ~done
                /\ Decidable(p2)
                /\ Slice.anyrate \/ MustCompile(p2)
                /\ prog' = p2 /\ done' = TRUE /\ UNCHANGED sl
-Next == AddUn \/ AddBin \/ AddMAdd \/ AddSum \/ AddGen \/ Finish
+\* two output units: Out.ar(0, a) and ReplaceOut.kr(1, b)
+Finish2 == /\ ~done /\ Slice.sink = "Out2"
+           /\ \E a \in Signals, b \in Signals :
+               LET p2 == Program(prog.ins \o <<Gen("Out", 2, 0, <<C(0), a>>), Gen("ReplaceOut", 1, 0, <<C(1), b>>)>>) IN
+               /\ Decidable(p2) /\ MustCompile(p2)
+               /\ prog' = p2 /\ done' = TRUE /\ UNCHANGED sl
+Next == AddUn \/ AddBin \/ AddMAdd \/ AddSum \/ AddGen \/ Finish \/ Finish2
 Spec == Init /\ [][Next]_vars
 
 (* the same generator for random walks (tlc -simulate): every action proposes ONE randomly drawn
@@ -138,7 +145,7 @@ RAddGen == ~done /\ NOps < Slice.n /\ Slice.gens # {} /\ \E cls \in Pick(Slice.g
                   nout == IF c.nout < 0 THEN 2 ELSE c.nout
                   args == [j \in 1..c.lo |-> IF j = 1 THEN a ELSE C(1)] IN
               rate \in c.rates /\ Try(Gen(cls, rate, nout, args))
-RFinish == /\ ~done /\ NOps >= Slice.n \div 2
+RFinish == /\ ~done /\ NOps >= Slice.n \div 2 /\ Slice.sink # "Out2"
            /\ \E a \in Pick(Signals) :
                LET fixed == IF Slice.sink = "LocalOut" THEN <<>> ELSE <<C(0)>>
                    zero == IF Slice.sink = "Out0" THEN <<C(0)>> ELSE <<>>       \* a literal 0 channel (becomes silence)
